@@ -699,7 +699,7 @@ class GooFitPyChain(AmplitudeChain):
         imag_coeff = (
             f'Variable("{self!s}_i", {self.amp.imag:.6})'
             if self.fix
-            else f'Variable("{self!s}_r", {self.amp.imag:.6},{self.err.imag:.6}, 0., 1000.)'
+            else f'Variable("{self!s}_i", {self.amp.imag:.6},{self.err.imag:.6}, 0., 1000.)'
         )
         return (
             "amplitudes_list.append(Amplitude(\n"
